@@ -53,6 +53,13 @@ def generate(rng, focus, tier="quick"):
                 entries[a] = start + rng.randrange(0, 20) * DAY + rng.choice([0, CLOSE_S, CLOSE_S + 60])
             else:
                 entries[a] = None
+    swap = None
+    if dynamic and n_assets >= 2 and rng.random() < 0.25:
+        a_out, a_in = rng.sample(assets, 2)
+        t_sw = start + rng.randrange(1, 15) * DAY + rng.choice([0, CLOSE_S])
+        entries[a_out] = start - DAY
+        entries[a_in] = t_sw
+        swap = {"out": a_out, "in": a_in, "t": t_sw}
     n_ops = rng.choice([10, 20, 40, 80])
     ops = []
     last = dict((a, _p(rng)) for a in assets)
@@ -97,7 +104,7 @@ def generate(rng, focus, tier="quick"):
                 pr = int(pr)                       # a whole price handed over as a Python int
                 last[a] = float(pr)
             ops.append({"k": "append", "sig": rng.choice(KINDS), "asset": a, "price": pr})
-    cfg = {"assets": assets, "lookbacks": lookbacks, "dynamic": dynamic, "entries": entries, "start": start}
+    cfg = {"assets": assets, "lookbacks": lookbacks, "dynamic": dynamic, "entries": entries, "start": start, "swap": swap}
     if rng.random() < 0.3 and n_assets > 1:
         # the signals of one collection built on DIFFERENT universe objects
         per = {}
@@ -156,6 +163,21 @@ def _run(plan, ctx):
     assets = list(cfg["assets"])
     start = cfg["start"]
     def make_universe(dynamic, ent, members):
+        if dynamic and cfg.get("swap") and ent is cfg["entries"]:
+            # a fixed-size index: one member is dropped at the very instant another one enters (custom Universe)
+            from qstrader.asset.universe.universe import Universe
+            sw = cfg["swap"]
+
+            class FixedSizeIndex(Universe):
+                def __init__(self, entries, out, when):
+                    self.entries, self.out, self.when = dict(entries), out, when
+
+                def get_assets(self, dt):
+                    return [a for a, e in self.entries.items()
+                            if e is not None and dt >= e and not (a == self.out and dt >= self.when)]
+            ctx.fault("universe_member_swapped_at_constant_size")
+            return FixedSizeIndex(dict((a, (ts(e) if e is not None else None)) for a, e in ent.items()),
+                                  sw["out"], ts(sw["t"])), dict(ent)
         if dynamic:
             return DynamicUniverse(dict((a, (ts(e) if e is not None else None)) for a, e in ent.items())), dict(ent)
         return StaticUniverse(list(members)), dict((a, (start - DAY if a in members else None)) for a in assets)
@@ -247,6 +269,9 @@ def _run(plan, ctx):
             try:
                 sigs[k].append(a, p)
             except Exception as e:
+                from qsim.core import raised_in_repo as _rir
+                if not _rir(e):
+                    raise          # a bug of the harness: exit 2, never a verdict
                 ctx.violate("C16", "append_raised", {"signal": k, "asset": a, "price": p, "exc": repr(e)[:200]})
                 return
             hist[(k, a)].append(float(p))
@@ -260,6 +285,9 @@ def _run(plan, ctx):
             try:
                 coll.update(ts(t))
             except Exception as e:
+                from qsim.core import raised_in_repo as _rir
+                if not _rir(e):
+                    raise          # a bug of the harness: exit 2, never a verdict
                 ctx.violate("C16", "collection_update_raised", {"t": iso(t), "exc": repr(e)[:300]})
                 return
             n_updates += 1
